@@ -1519,6 +1519,12 @@ bool SGXMLScanner::scanStartTag(bool& gotData)
         if (((SchemaValidator*) fValidator)->getErrorOccurred())
             fPSVIElemContext.fErrorOccurred = true;
     }
+    else
+    {
+        // An xsi:nil on an element that is not assessed (skip/lax wildcard)
+        // must not be taken for an attribute of the next validated element
+        ((SchemaValidator*)fValidator)->resetNillable();
+    }
 
     // squirrel away the element's QName, so that we can do an efficient
     // end-tag match
